@@ -122,9 +122,6 @@ func (p *printer) char(c int, inBr bool) {
 		p.hex(c)
 	case inBr && (c == '-' || c == ':'):
 		p.hex(c)
-	case c == '-' && strings.HasSuffix(p.b.String(), "]"):
-		// "[a-c]-a" is read by emerge as the range "]-a" inside the group (recorded under C09); avoid the form
-		p.hex(c)
 	case strings.ContainsRune(escapedChars, rune(c)):
 		p.raw(`\` + string(rune(c)))
 	default:
@@ -667,7 +664,40 @@ func cmdRegexReplay(args []string) error {
 	return w.Close()
 }
 
+// regex-print: concrete pattern text of every generated term (canonical, unambiguous prints for C09).
+func cmdRegexPrint(args []string) error {
+	fs := flag.NewFlagSet("regex-print", flag.ContinueOnError)
+	in := fs.String("in", "gen_cases.ndjson", "cases from the TLA+ generator")
+	out := fs.String("out", "pats.ndjson", "ndjson of {text, kind, fam}")
+	if err := fs.Parse(args); err != nil {
+		return err
+	}
+	w, err := newNDWriter(*out)
+	if err != nil {
+		return err
+	}
+	seen := map[string]bool{}
+	err = readNDJSON(*in, func(line []byte) error {
+		var c RegexCase
+		if err := json.Unmarshal(line, &c); err != nil {
+			return err
+		}
+		c.Term = normTerm(c.Term)
+		pat := patternOf(c)
+		if seen[pat] {
+			return nil
+		}
+		seen[pat] = true
+		return w.Write(map[string]any{"text": pat, "kind": "canon", "fam": c.Fam, "expect": ""})
+	})
+	if err != nil {
+		return err
+	}
+	return w.Close()
+}
+
 func init() {
+	commands["regex-print"] = cmdRegexPrint
 	commands["regex-export"] = cmdRegexExport
 	commands["regex-replay"] = cmdRegexReplay
 }
